@@ -70,6 +70,9 @@ impl Obs {
     }
     /// Fold an observable event into the run digest (determinism check). Never draws randomness.
     pub fn event(&mut self, s: &str) {
+        if std::env::var_os("DESKSET_TRACE").is_some() {
+            eprintln!("EVENT {:?}", s);
+        }
         self.digest = fnv_mix(self.digest ^ 0x9E37, s.as_bytes());
     }
     pub fn step(&mut self) {
@@ -115,6 +118,14 @@ pub trait Scenario: 'static {
     /// input shows up at the input sizes the fault injector produces.
     fn stack_bytes() -> usize {
         8 << 20
+    }
+    /// Outcomes of this scenario can depend on HashMap/HashSet iteration order. Such a run is executed
+    /// twice: a throw-away priming execution first (so that every lazily initialised global the case
+    /// touches exists before the judged execution and cannot shift its RandomState key counter), then
+    /// the judged one. That makes the judged execution a function of (hash seed, case) alone, whatever
+    /// the process did before - in the worker and in a replay process alike.
+    fn hash_sensitive() -> bool {
+        false
     }
     /// True when the thorough tier enumerates its (bounded) space completely.
     fn exhaustive(_tier: Tier) -> bool {
@@ -214,6 +225,30 @@ pub fn execute_in_thread<S: Scenario>(env: &Envelope<S::Case>, timeout: Duration
     let h = std::thread::Builder::new()
         .stack_size(S::stack_bytes())
         .spawn(move || {
+            if S::hash_sensitive() {
+                // One priming execution on another thread (initialises whatever lazily initialised
+                // global this case touches), then the judged one on a fresh thread.
+                {
+                    let case1 = case.clone();
+                    if let Ok(h) = std::thread::Builder::new().stack_size(S::stack_bytes()).spawn(move || {
+                        hashseed::set_thread_hash_seed(hs ^ 0x5052_494d);
+                        let _ = execute_here::<S>(&case1);
+                    }) {
+                        let _ = h.join();
+                    }
+                }
+                let case2 = case.clone();
+                let inner = std::thread::Builder::new().stack_size(S::stack_bytes()).spawn(move || {
+                    hashseed::set_thread_hash_seed(hs);
+                    execute_here::<S>(&case2)
+                });
+                if let Ok(h) = inner {
+                    if let Ok(out) = h.join() {
+                        let _ = tx.send(out);
+                    }
+                }
+                return;
+            }
             hashseed::set_thread_hash_seed(hs);
             let out = execute_here::<S>(&case);
             let _ = tx.send(out);
@@ -233,25 +268,31 @@ pub fn execute_in_thread<S: Scenario>(env: &Envelope<S::Case>, timeout: Duration
 /// that run's thread. Warm it up before any real run so that a run's hash order does not depend
 /// on which runs happened to precede it in the same process.
 fn warm_up<S: Scenario>() {
-    let h = std::thread::Builder::new().stack_size(8 << 20).spawn(|| {
-        hashseed::set_thread_hash_seed(0);
-        let _ = std::panic::catch_unwind(|| {
-            use std::str::FromStr;
-            let _ = debversion::Version::from_str("1:2.0~rc1-1+b1");
-            let _ = url::Url::parse("https://example.com/a%20b?x=y#z");
-            let _ = chrono::DateTime::parse_from_rfc2822("Sat, 14 Dec 2024 10:15:30 +0000");
-            let _ = chrono::NaiveDate::parse_from_str("2024-12-14", "%Y-%m-%d");
-            let _ = debian_control::vcs::ParsedVcs::from_str("https://example.com/x -b main [sub]");
-            let _ = debian_control::lossy::Relations::from_str("a (>= 1:1.0) [amd64] <!nocheck>, b | c");
-            let _ = debian_control::lossless::relations::Relations::from_str("a (>= 1:1.0) [amd64] <!nocheck>, b | c").map(|r| r.to_string());
+    // regex-automata keeps its per-regex match caches in a pool sharded by (regex thread id % 8); a
+    // thread that finds its shard empty creates a cache, and creating one builds a HashMap, i.e. draws
+    // RandomState keys in that thread. Running the warm-up on nine consecutive threads leaves a cache
+    // for every regex it touches in every shard, so later run threads create none, whatever their id.
+    for round in 0..9u64 {
+        let h = std::thread::Builder::new().stack_size(8 << 20).spawn(move || {
+            hashseed::set_thread_hash_seed(round);
+            let _ = std::panic::catch_unwind(|| {
+                use std::str::FromStr;
+                let _ = debversion::Version::from_str("1:2.0~rc1-1+b1");
+                let _ = url::Url::parse("https://example.com/a%20b?x=y#z");
+                let _ = chrono::DateTime::parse_from_rfc2822("Sat, 14 Dec 2024 10:15:30 +0000");
+                let _ = chrono::NaiveDate::parse_from_str("2024-12-14", "%Y-%m-%d");
+                let _ = debian_control::vcs::ParsedVcs::from_str("https://example.com/x -b main [sub]");
+                let _ = debian_control::lossy::Relations::from_str("a (>= 1:1.0) [amd64] <!nocheck>, b | c");
+                let _ = debian_control::lossless::relations::Relations::from_str("a (>= 1:1.0) [amd64] <!nocheck>, b | c").map(|r| r.to_string());
+            });
+            for i in 0..40u64 {
+                let env = make_envelope::<S>(0x5741_524d, Tier::Quick, i);
+                let _ = execute_here::<S>(&env.case);
+            }
         });
-        for i in 0..40u64 {
-            let env = make_envelope::<S>(0x5741_524d, Tier::Quick, i);
-            let _ = execute_here::<S>(&env.case);
+        if let Ok(h) = h {
+            let _ = h.join();
         }
-    });
-    if let Ok(h) = h {
-        let _ = h.join();
     }
 }
 
